@@ -327,12 +327,15 @@ func SkipRows(fn *ssa.Function) []string {
 						if !ok {
 							break
 						}
-						if _, nested := ph.Edges[i].(*ssa.Phi); nested {
+						if inner, nested := ph.Edges[i].(*ssa.Phi); nested {
+							if inner == ph {
+								vs = append(vs, "unchanged")
+							}
 							continue
 						}
 						vs = append(vs, clip(argText(ph.Edges[i]), 50))
 					}
-					if len(vs) > 0 && phis == "" && !isHdr[b] {
+					if len(vs) > 0 && phis == "" {
 						sort.Strings(vs)
 						phis = "φ=" + strings.Join(vs, ",") + " "
 					}
